@@ -99,7 +99,7 @@ theorem LiveInv.setWQ {s s' : State} (h : LiveInv s) (i : Nat) (hi : i < s.worke
 
 theorem workerDecide_pc_cases (w : Worker) :
     ((workerDecide w).pc = .wait ∧ (workerDecide w).woken = false) ∨ (workerDecide w).pc = .cleanup ∨
-    ((workerDecide w).pc = .decode (min w.inFilled (w.inPos + chunkSize)) w.pu ∧ w.st = .run) := by
+    ((workerDecide w).pc = .decode w.inFilled w.pu ∧ w.st = .run) := by
   unfold workerDecide
   split
   · exact Or.inl ⟨rfl, rfl⟩
